@@ -1119,6 +1119,8 @@ class CxxParser:
         is_typedef: bool,
         location: Location,
         mods: ParsedTypeModifiers,
+        const: bool = False,
+        volatile: bool = False,
     ) -> None:
         """
         opaque_enum_declaration: enum_key [attribute_specifier_seq] IDENTIFIER [enum_base] ";"
@@ -1169,7 +1171,9 @@ class CxxParser:
         self.visitor.on_enum(self.state, enum)
 
         # Finish it up
-        self._finish_class_or_enum(enum.typename, is_typedef, mods, "enum")
+        self._finish_class_or_enum(
+            enum.typename, is_typedef, mods, "enum", None, const, volatile
+        )
 
     def _parse_enumerator_list(self) -> typing.List[Enumerator]:
         """
@@ -1287,6 +1291,8 @@ class CxxParser:
         typedef: bool,
         location: Location,
         mods: ParsedTypeModifiers,
+        const: bool = False,
+        volatile: bool = False,
     ) -> None:
         """
         class_specifier: class_head "{" [member_specification] "}"
@@ -1341,8 +1347,17 @@ class CxxParser:
         clsdecl = ClassDecl(
             typename, bases, template, explicit, final, doxygen, self._current_access
         )
+        # cv-qualifiers written before the class key apply to the declarators
+        # that follow the closing brace
         state: ClassBlockState = ClassBlockState(
-            self.state, location, clsdecl, default_access, typedef, mods
+            self.state,
+            location,
+            clsdecl,
+            default_access,
+            typedef,
+            mods,
+            const,
+            volatile,
         )
         self._setup_state(state)
 
@@ -1356,6 +1371,8 @@ class CxxParser:
             state.mods,
             state.class_decl.classkey,
             state.location,
+            state.const,
+            state.volatile,
         )
 
     def _process_access_specifier(
@@ -2793,14 +2810,29 @@ class CxxParser:
 
             if typename.classkey in ("class", "struct", "union"):
                 self._parse_class_decl(
-                    typename, tok, doxygen, template, is_typedef, location, mods
+                    typename,
+                    tok,
+                    doxygen,
+                    template,
+                    is_typedef,
+                    location,
+                    mods,
+                    parsed_type.const,
+                    parsed_type.volatile,
                 )
             else:
                 if template:
                     # enum cannot have a template
                     raise self._parse_error(tok)
                 self._parse_enum_decl(
-                    typename, tok, doxygen, is_typedef, location, mods
+                    typename,
+                    tok,
+                    doxygen,
+                    is_typedef,
+                    location,
+                    mods,
+                    parsed_type.const,
+                    parsed_type.volatile,
                 )
 
             return True
@@ -2815,8 +2847,10 @@ class CxxParser:
         mods: ParsedTypeModifiers,
         classkey: typing.Optional[str],
         location: typing.Optional[Location] = None,
+        const: bool = False,
+        volatile: bool = False,
     ) -> None:
-        parsed_type = Type(name)
+        parsed_type = Type(name, const, volatile)
 
         tok = self.lex.token_if("__attribute__")
         if tok:
